@@ -72,6 +72,10 @@ def stimuli (cfg):
         for d2 in ds:
           if d1 != d2: out.append(("burst", s, d1, d2))
       out.append(("burst", s, ds[0], ds[1], ds[2]))
+    # a long burst: its packet-ins add up to more than one 2048-byte read of the controller connection, so one of
+    # them straddles two reads with complete messages in front of it
+    ds = ["h2", "h3", "bcast", "unknown"]
+    out.append(("burst", 1) + tuple(ds[i % 4] for i in range(14)))
   return out
 
 
